@@ -20,7 +20,7 @@ def one(args):
                 out[p]=(r.returncode, [f[:260] for f in first[:3]] or r.stderr[-300:])
         return name,out
     finally: shutil.rmtree(tmp,ignore_errors=True)
-src=sys.argv[1]; props=sys.argv[2:] or PROPS
+src=os.path.abspath(sys.argv[1]); props=sys.argv[2:] or PROPS
 jobs=[(d, os.path.join(src,d,'patch.diff'), props) for d in sorted(os.listdir(src)) if os.path.exists(os.path.join(src,d,'patch.diff'))]
 with ThreadPoolExecutor(8) as ex:
     for name,out in ex.map(one,jobs):
